@@ -248,7 +248,15 @@ def run(ctx):
         if errs:
             raise errs[0]
 
-    h = ctx.build_harness("conch")
+    # optional second hook (hooks/watcher-prelock.diff): used as a seeded yield before mutex.Lock when present
+    tags = "verif"
+    try:
+        if "VerifPreLock" in open(os.path.join(core.REPO, "x", "watcher", "changes_verif.go")).read():
+            tags = "verif,verifprelock"
+    except OSError:
+        pass
+    ctx.extra["prelock_hook"] = tags != "verif"
+    h = ctx.build_harness("conch", tags=tags)
 
     # 2. spec -> code: steer the model's behaviours into the real object
     results = []
@@ -261,7 +269,10 @@ def run(ctx):
     # 3. code -> spec: free-running histories
     res_st, tr_st = [], []
     if True:
-        res_st = ctx.run_harness(h, ["watcher-stress", "-n", "300" if quick else "2500"], None, timeout_s=2400)
+        res_st = ctx.run_harness(h, ["watcher-stress", "-n", "300" if quick else "2500",
+                                     "-shortbursts", "20" if quick else "150",
+                                     "-bursts", "60" if quick else "400", "-burstlen", "1500" if quick else "3000"],
+                                 None, timeout_s=2400)
         tr_st = split_traces(os.path.join(ctx.scratch, "wtraces-stress.ndjson"))
 
     traces, metas = [], []
@@ -333,7 +344,11 @@ def run(ctx):
                 "(+ WatcherReplay_mid.cfg in the thorough tier) exhaustively, plus seeded -simulate behaviours of "
                 "WatcherReplay_sim.cfg [2 producers x 3, 3 consumers x 3, aux, 5 files / 4 dirs], each command sequence "
                 "steered 3-6 times into the real object; (ii) seeded free-running histories (1-3 producers, 1-4 "
-                "consumers, 1-3 calls each, optional Ignore/EntryDeleted goroutine) validated by TLC; distinct = "
+                "consumers, 1-3 calls each, optional Ignore/EntryDeleted goroutine) and short bursts (1-2 producers x 6-12 "
+                "back-to-back reports against one tight-loop consumer) validated by TLC; (iii) long bursts (60 quick / 400 "
+                "thorough; 1-2 producers reporting 750-1500 / 1500-3000 distinct directories back-to-back against one "
+                "tight-loop consumer) judged on the spot by the statement: nothing unreported, nothing twice, no \"\", and "
+                "no consumer parked in cond.Wait with directories owed once every producer has returned; distinct = "
                 "distinct command sequence / distinct (participants, calls, blocked-at-end) shape")
     ctx.assumptions += [
         "goroutine blocking is observed through runtime.Stack states (sync.Cond.Wait)",
